@@ -80,6 +80,8 @@ def run(index, tier="quick", seed=0) -> Result:
         raise AnalysisError(f"only {len(sc.sites)} decision sites enumerated; 152 confirmed")
     from ..dimscan import report_translation
     report_translation(res, sc, lambda func, path: True, "all public entries")
+    from ..labelrule import report as _label
+    _label(res, index, lambda cls_, fn_: True)
     return res
 
 
